@@ -92,6 +92,11 @@ void ezc3d::Header::print() const{
 
 void ezc3d::Header::write(std::fstream &f) const
 {
+    // These values are stored on 16 bits
+    if (_nb3dPoints > 0xFFFF || _nbAnalogsMeasurement > 0xFFFF || _nbAnalogByFrame > 0xFFFF
+            || (nbFrames() > 0 && (_firstFrame + 1 > 0xFFFF || _lastFrame + 1 > 0xFFFF)))
+        throw std::range_error("Header cannot be written: the number of points, of analogs by frame "
+                               "and the index of the last frame are limited to 65535");
     // write the checksum byte and the start point of header
     int parameterAddessDefault(2);
     f.write(reinterpret_cast<const char*>(&parameterAddessDefault), ezc3d::BYTE);
